@@ -150,7 +150,12 @@ def build(prog):
     from psyclone.psyGen import PSyFactory
     Config.get().api = api
     Config.get().distributed_memory = dm
-    _, info = parse(os.path.join(core.REPO, TESTFILES, fname), api=api)
+    if prog not in _PRISTINE:
+        # the parsed algorithm layer + kernel metadata (read-only input);
+        # the PSy layer is created afresh for every renewal
+        _PRISTINE[prog] = parse(os.path.join(core.REPO, TESTFILES, fname),
+                                api=api)[1]
+    info = _PRISTINE[prog]
     psy = PSyFactory(api, distributed_memory=dm).create(info)
     _KEEP.append(psy)
     del _KEEP[:-4]
